@@ -1,6 +1,7 @@
 SPECIFICATION Spec
 CONSTANT NRandom = 3
 CONSTANT SinglePer = 1
+CONSTANT Stride = 3
 CONSTANT NSingle = 4
 CONSTANT QUOTE <- QuoteC
 CONSTANT BACKSLASH <- BackslashC
